@@ -452,7 +452,9 @@ func captureFD(slot **os.File, f func()) string {
 		f()
 		return ""
 	}
-	defer os.Remove(tmp.Name())
+	// unlinked at once: the open descriptor stays readable and nothing is left
+	// behind when f kills the process (fatal error, watchdog)
+	os.Remove(tmp.Name())
 	old := *slot
 	*slot = tmp
 	func() {
